@@ -37,7 +37,9 @@ def change_dates_for(rnd, quick, nq, nreg=2):
     allc = [d for d in gs.change_dates("2015-01-01", "2025-12-31") if d != "2023-01-01"]
     reg = [d for d in gs.regime_dates("2015-01-01", "2025-12-31") if not ("2017-01-01" <= d <= "2017-06-30") and d != "2023-01-01"]
     if quick:
-        return ["2023-01-01"] + rnd.sample(allc, min(nq, len(allc))) + rnd.sample(reg, min(nreg, len(reg)))
+        # the law in force today (last change date) is always among the dates
+        smp = rnd.sample(allc[:-1], min(nq - 1, len(allc) - 1))
+        return ["2023-01-01"] + smp[:1] + [allc[-1]] + smp[1:] + rnd.sample(reg, min(nreg, len(reg)))
     return ["2023-01-01"] + allc + [d for d in reg if d not in allc]
 
 
